@@ -1,7 +1,7 @@
 (* Check/RewriteCases.v — verdicts for the rewriter correspondence (C07).
    0 ok; 1 model/implementation mismatch; 2 property predicate false on the implementation's output
    (raised, narrowed a witness value, or changed the type without its trigger). *)
-From MT Require Export Rewrite Common.
+From MT Require Export Rewrite Hier Common.
 
 Record rcase := RCase {
   rrs : list rewriter;        (* the chain applied, in order *)
@@ -49,7 +49,9 @@ Definition trigger (r : rewriter) (t : ty) : bool :=
   | RCommonBase => any_union (fun ts => forallb (fun t => is_tcls t || is_td t) ts) t
   end.
 
+(* 3 = the emitted class tables violate the premises of the C07 theorems (harness bug, never the code's fault) *)
 Definition verdict_c07 (h : hierarchy) (bt : bases_table) (c : rcase) : nat :=
+  if negb (wf_hier h && bt_ok h bt) then 3 else
   if rraised c then 2
   else if negb (forallb (fun v => implb (member false (subclass h) v (rin c))
                                         (member true (subclass h) v (rimpl c))) (rws c)) then 2
